@@ -370,7 +370,7 @@ def render_inputs(ctx: Ctx) -> Iterator[Tuple[str, str]]:
             yield c["tree"], "corpus"
     fixed = [
         "u,0", "u,1,c,0", "u,2,c,0,c,0", "u,1,c,1,t,g,u,0,n", "u,1,c,1,t,s,0,0,n", "u,1,c,1,t,s,1,0,n",
-        "u,1,c,1,t,s,0,1,r,94,0,e,97,0,n", "u,1,c,1,t,s,1,1,r,94,0,e,97,0,n", "u,1,c,1,t,s,0,2,r,97,0,n,r,94,0,n",
+        "u,1,c,1,t,s,0,1,r,94,0,e,97,0,n", "u,1,c,1,t,s,1,1,r,94,0,e,97,0,n", "u,1,c,1,t,s,0,2,r,97,0,n,r,94,0,n,n",
         "u,1,c,1,t,s,0,1,r,45,0,n,n", "u,1,c,1,t,s,0,2,r,45,0,n,r,45,0,n,n", "u,1,c,1,t,s,0,3,r,45,0,n,r,45,0,n,r,45,0,n,n",
         "u,1,c,1,t,s,0,1,r,45,0,e,97,0,n", "u,1,c,1,t,s,0,2,r,97,0,n,r,45,1,n,n", "u,1,c,1,t,s,0,1,r,94,1,n,n",
         "u,1,c,1,t,h,124,0,n", "u,1,c,1,t,h,123,0,n", "u,1,c,1,t,h,254,1,n", "u,1,c,1,t,h,255,1,n", "u,1,c,1,t,h,256,1,n",
